@@ -409,9 +409,11 @@ End CorrP.
 Section AdvP.
   Variables (P D M : Type).
   Variable ws : P -> bool.
+  Variable user_net : P -> option M.
   Variable init_net : P -> D -> M.
   Variable train_from : P -> M -> D -> M.
   Notation step := (adv_step ws init_net train_from).
+  Notation init := (a_init user_net).
 
   Lemma a_step_par (s : ast P M) (o : op D) : a_par (fst (step s o)) = a_par s.
   Proof. destruct o; cbn; try reflexivity. destruct (a_net s); reflexivity. Qed.
@@ -422,27 +424,44 @@ Section AdvP.
     rewrite IH. apply a_step_par.
   Qed.
 
-  Theorem a_history_independent (p : P) (h : list (op D)) (d : D) :
-    ws p = false ->
-    after step (a_init p) h (Fit d) = mkObs true p (Some (train_from p (init_net p d) d)) None /\
-    after step (a_init p) h (Fit d) = after step (a_init p) [] (Fit d).
+  (* networks given as lists: there is no user module, ever *)
+  Lemma a_step_mod_none (s : ast P M) (o : op D) : a_mod s = None -> a_mod (fst (step s o)) = None.
   Proof.
-    intro Hws.
-    assert (H : after step (a_init p) h (Fit d) =
-                mkObs true p (Some (train_from p (init_net p d) d)) None).
-    { unfold after. cbn. rewrite a_run_par. cbn. rewrite Hws. cbn.
-      rewrite orb_true_r. reflexivity. }
-    split; [exact H | rewrite H; unfold after; cbn; reflexivity].
+    intro H. destruct o; cbn; try exact H.
+    - rewrite H. reflexivity.
+    - destruct (a_net s); exact H.
+  Qed.
+
+  Lemma a_run_mod_none (h : list (op D)) : forall s, a_mod s = None -> a_mod (run step s h) = None.
+  Proof.
+    induction h as [|o r IH]; intros s H; cbn; [exact H|].
+    apply IH. apply a_step_mod_none. exact H.
+  Qed.
+
+  Theorem a_history_independent (p : P) (h : list (op D)) (d : D) :
+    ws p = false -> user_net p = None ->
+    after step (init p) h (Fit d) = mkObs true (p, None) (Some (train_from p (init_net p d) d)) None /\
+    after step (init p) h (Fit d) = after step (init p) [] (Fit d).
+  Proof.
+    intros Hws Hun.
+    assert (H : forall h', after step (init p) h' (Fit d) =
+                mkObs true (p, None) (Some (train_from p (init_net p d) d)) None).
+    { intro h'. unfold after. cbn.
+      assert (Hm : a_mod (run step (init p) h') = None) by (apply a_run_mod_none; exact Hun).
+      rewrite a_run_par. cbn. rewrite Hws, Hm. cbn. rewrite orb_true_r. unfold a_ok, a_params. cbn.
+      reflexivity. }
+    split; [apply H | rewrite (H h), (H []); reflexivity].
   Qed.
 
   (* warm_start = True: a fitted estimator continues from its current networks *)
   Theorem a_warm_start_continues (s : ast P M) (m : M) (d : D) :
     ws (a_par s) = true -> a_net s = Some m -> a_classes s = true ->
-    snd (step s (Fit d)) = mkObs true (a_par s) (Some (train_from (a_par s) m d)) None.
-  Proof. intros Hws Hn Hc. cbn. rewrite Hws, Hn, Hc. reflexivity. Qed.
+    o_model (snd (step s (Fit d))) = Some (train_from (a_par s) m d) /\
+    o_self (snd (step s (Fit d))) = true /\ o_exc (snd (step s (Fit d))) = None.
+  Proof. intros Hws Hn Hc. cbn. rewrite Hws, Hn, Hc. cbn. repeat split. Qed.
 
   Lemma a_trace_props (h : list (op D)) : forall s,
-    Forall (fun o => o_params o = a_par s /\ quiet o) (trace step s h).
+    Forall (fun o => fst (o_params o) = a_par s /\ quiet o) (trace step s h).
   Proof.
     induction h as [|o r IH]; intro s; cbn [trace]; constructor.
     - destruct o; cbn; unfold quiet; cbn; try (split; [reflexivity | left; reflexivity]).
@@ -450,19 +469,59 @@ Section AdvP.
     - specialize (IH (fst (step s o))). rewrite a_step_par in IH. exact IH.
   Qed.
 
+  Lemma a_trace_mod_none (h : list (op D)) : forall s, a_mod s = None ->
+    Forall (fun o => snd (o_params o) = None) (trace step s h).
+  Proof.
+    induction h as [|o r IH]; intros s H; cbn [trace]; constructor.
+    - destruct o; cbn; rewrite ?H; try reflexivity. destruct (a_net s); cbn; exact H.
+    - apply IH. apply a_step_mod_none. exact H.
+  Qed.
+
   Theorem a_params_constant (p : P) (h : list (op D)) :
-    Forall (fun o => o_params o = p /\ quiet o) (trace step (a_init p) h).
-  Proof. exact (a_trace_props h (a_init p)). Qed.
+    user_net p = None ->
+    Forall (fun o => o_params o = (p, None) /\ quiet o) (trace step (init p) h).
+  Proof.
+    intro Hun.
+    assert (H1 := a_trace_props h (init p)).
+    assert (H2 := a_trace_mod_none h (init p) Hun).
+    rewrite Forall_forall in *. intros o Ho.
+    destruct (H1 o Ho) as [Ha Hq]. specialize (H2 o Ho). split; [|exact Hq].
+    destruct (o_params o) as [a b]. cbn in *. subst. reflexivity.
+  Qed.
 
   Theorem a_predict_pure (s : ast P M) :
     fst (step s Predict) = s /\
     snd (step (fst (step s Predict)) Predict) = snd (step s Predict).
   Proof. cbn. destruct (a_net s) eqn:E; cbn; rewrite ?E; split; reflexivity. Qed.
 
-  Theorem a_clone_fresh (s : ast P M) :
-    fst (step s Clone) = a_init (a_par s) /\ snd (step s Clone) = mkObs true (a_par s) None None.
+  (* what clone does in general: scalar parameters and the CURRENT state of the user modules, no engine *)
+  Theorem a_clone_general (s : ast P M) :
+    fst (step s Clone) = mkA (a_par s) None false (a_mod s) /\
+    snd (step s Clone) = mkObs true (a_par s, a_mod s) None None.
   Proof. split; reflexivity. Qed.
+
+  (* networks given as lists: after any history the clone IS a new estimator *)
+  Theorem a_clone_fresh (p : P) (h : list (op D)) :
+    user_net p = None ->
+    fst (step (run step (init p) h) Clone) = init p /\
+    snd (step (run step (init p) h) Clone) = mkObs true (p, None) None None.
+  Proof.
+    intro Hun. cbn. unfold a_ok, a_params. cbn.
+    rewrite a_run_par, (a_run_mod_none h (init p) Hun). cbn.
+    unfold a_init. rewrite Hun. split; reflexivity.
+  Qed.
 End AdvP.
+
+(* networks given as torch Modules: fit trains the constructor parameter in place, so get_params
+   changes, a refit continues from the trained weights and a clone made after a fit is pre-trained
+   (free instance, computed witnesses) *)
+Theorem a_user_module_refuted :
+  let step := adv_step sym_ws sym_init_net sym_train_from in
+  let s0 := a_init sym_user_net (0, (false, true)) in
+  o_params (after step s0 [] (Fit 1)) <> a_params s0 /\
+  o_model (after step s0 [Fit 1] (Fit 2)) <> o_model (after step s0 [] (Fit 2)) /\
+  o_model (after step s0 [Fit 1; Clone] (Fit 2)) <> o_model (after step s0 [] (Fit 2)).
+Proof. cbn zeta. repeat split; vm_compute; intro H; discriminate H. Qed.
 
 (* ================================================================ bundles used by props/C19.v *)
 Theorem all_predict_pure (P N D M : Type) :
@@ -517,15 +576,19 @@ Theorem all_clone_fresh (P D M : Type) :
     (forall (width : D -> Z) (train : P -> D -> M) s,
         fst (c_step width train s Clone) = c_init (c_par s) /\
         snd (c_step width train s Clone) = mkObs true (c_par s) None None) /\
-    (forall (ws : P -> bool) (init_net : P -> D -> M) (train_from : P -> M -> D -> M) s,
-        fst (adv_step ws init_net train_from s Clone) = a_init (a_par s) /\
-        snd (adv_step ws init_net train_from s Clone) = mkObs true (a_par s) None None).
+    (forall (ws : P -> bool) (user_net : P -> option M) (init_net : P -> D -> M)
+            (train_from : P -> M -> D -> M) p h,
+        user_net p = None ->
+        fst (adv_step ws init_net train_from (run (adv_step ws init_net train_from) (a_init user_net p) h) Clone)
+          = a_init user_net p /\
+        snd (adv_step ws init_net train_from (run (adv_step ws init_net train_from) (a_init user_net p) h) Clone)
+          = mkObs true (p, None) None None).
 Proof.
   split; [|split; [|split]].
   - intros train s. apply s_clone_fresh.
   - intros train s. apply g_clone_fresh.
   - intros width train s. apply c_clone_fresh.
-  - intros ws init_net train_from s. apply a_clone_fresh.
+  - intros ws user_net init_net train_from p h. apply a_clone_fresh.
 Qed.
 
 Theorem c_params_constant_quiet (P D M : Type) (width : D -> Z) (train : P -> D -> M) (p : P) (w : Z)
@@ -565,9 +628,9 @@ Example old_gridsearch_fit_returns_none :
 Proof. reflexivity. Qed.
 (* F7d: re-initialisation only on the first call, whatever warm_start says *)
 Example old_adversarial_refit_continues :
-  o_model (after (adv_step_old sym_ws sym_init_net sym_train_from) (a_init (0, false)) [Fit 1] (Fit 2))
+  o_model (after (adv_step_old sym_ws sym_init_net sym_train_from) (a_init sym_user_net (0, (false, false))) [Fit 1] (Fit 2))
     = Some (1, [1; 2]) /\
-  o_model (after (adv_step_old sym_ws sym_init_net sym_train_from) (a_init (0, false)) [] (Fit 2))
+  o_model (after (adv_step_old sym_ws sym_init_net sym_train_from) (a_init sym_user_net (0, (false, false))) [] (Fit 2))
     = Some (2, [2]).
 Proof. split; reflexivity. Qed.
 (* the same histories on the current switches *)
@@ -575,8 +638,8 @@ Example now_refit_ok :
   o_exc (after (gs_step sym_train) (g_init 0) [Fit 1] (Fit 1)) = None /\
   o_self (after (gs_step sym_train) (g_init 0) [] (Fit 1)) = true /\
   o_exc (after (eg_step sym_nu_of sym_train_eg) (e_init 0 None) [Fit 1; Clone] (Fit 1)) = None /\
-  o_model (after (adv_step sym_ws sym_init_net sym_train_from) (a_init (0, false)) [Fit 1] (Fit 2))
+  o_model (after (adv_step sym_ws sym_init_net sym_train_from) (a_init sym_user_net (0, (false, false))) [Fit 1] (Fit 2))
     = Some (2, [2]) /\
-  o_model (after (adv_step sym_ws sym_init_net sym_train_from) (a_init (0, true)) [Fit 1] (Fit 2))
+  o_model (after (adv_step sym_ws sym_init_net sym_train_from) (a_init sym_user_net (0, (true, false))) [Fit 1] (Fit 2))
     = Some (1, [1; 2]).
 Proof. repeat split; reflexivity. Qed.
